@@ -403,7 +403,7 @@ def const_str(op):
     """string literal value of a constant operand  (const "abc") else None"""
     if "k" in op:
         k = op["k"]
-        m = re.fullmatch(r'const "(.*)"', k, re.S)
+        m = re.fullmatch(r'(?:const )?"(.*)"', k, re.S)
         if m:
             return m.group(1)
     return None
@@ -411,12 +411,13 @@ def const_str(op):
 
 def const_int(op):
     if "k" in op:
-        m = re.fullmatch(r"const (-?\d+)_?[iu](?:8|16|32|64|128|size)", op["k"])
+        m = re.fullmatch(r"(?:const )?(-?\d+)(?:_?[iu](?:8|16|32|64|128|size))?", op["k"])
         if m:
             return int(m.group(1))
-        m = re.fullmatch(r"const (-?\d+)", op["k"])
-        if m:
-            return int(m.group(1))
+        if op["k"] in ("usize::MAX", "u64::MAX"):
+            return (1 << 64) - 1
+        if op["k"] == "u32::MAX":
+            return (1 << 32) - 1
     return None
 
 
